@@ -467,7 +467,7 @@ func ruleLoadNilRangeOwnedByTheStore(c *Ctx) {
 			n++
 			for _, cd := range g.expandAnd(g.CondsAtInstr(cl)) {
 				b, ok := cd.V.(*ssa.BinOp)
-				if !ok || !((b.Op == token.EQL && cd.Sense) || (b.Op == token.NEQ && !cd.Sense)) {
+				if !ok || !((eqHolds(b, cd)) || (b.Op == token.NEQ && !cd.Sense)) {
 					continue
 				}
 				if oc, ok := b.X.(*ssa.Call); ok && oc.Call.StaticCallee() == getOp {
